@@ -158,6 +158,14 @@ def generate(ctx):
                         "interp": rng.choice(["spy", "previous", "next", "linear"])})
         yield {"N": n, "shape": list(shape), "dt": rng.choice([1.0, 0.5]), "ptr": rng.randrange(n),
                "dtype": "float32", "timedtype": "float32", "ops": ops}
+    # records whose slots hold non-finite placeholders (the NaN / inf fill of an event record): an insert exactly on a step
+    # writes the observation there whatever the slot held and whatever the kernel would have derived from the neighbours
+    for _ in range(ncases // 5):
+        n = rng.choice([2, 3, 5])
+        yield {"part": "nonfinite", "N": n, "shape": list(rng.choice([(3,), (2, 2), ()])), "dt": rng.choice([1.0, 0.5, 1.3]),
+               "fill": rng.choice(["nan", "inf", "-inf", "mixed"]), "pair": rng.randrange(len(PAIRS)), "ptr": rng.randrange(n),
+               "mode": rng.choice(["tensor", "tensor", "scalar"]), "inplace": rng.random() < 0.5, "reps": rng.randint(2, 6),
+               "seed": rng.randrange(1 << 30)}
     # records whose storage is not floating point (spike histories are bool, counters integer): the elapsed time handed
     # to the kernel is still a real number, and the scalar and tensor forms still agree
     for _ in range(ncases // 5):
@@ -325,9 +333,57 @@ def _intstore(ctx, desc):
                 return ctx.violation(f"intstore.select.scalar_ne_tensor.{name}", "scalar-time and tensor-time select disagree", rdesc)
 
 
+def _nonfinite(ctx, desc):
+    n, shape, dt = desc["N"], tuple(desc["shape"]), desc["dt"]
+    g = np.random.default_rng(desc["seed"])
+    owner = inferno.Module()
+    RecordTensor.create(owner, "rec", dt, (n - 0.5) * dt, torch.zeros(shape, dtype=torch.float64), inclusive=False)
+    rt = owner.rec
+    vals = {"nan": [np.nan], "inf": [np.inf], "-inf": [-np.inf], "mixed": [np.nan, np.inf, -np.inf, 3.5]}[desc["fill"]]
+    hist = []
+    for i in range(n):
+        x = np.asarray(g.choice(vals, size=shape), dtype=np.float64).reshape(shape)
+        rt.push(torch.as_tensor(np.array(x, dtype=np.float64)))
+    if desc["ptr"]:
+        rt.incr(desc["ptr"])
+    hist = [_np(rt.read(k)).copy() for k in range(n)]      # k steps back, as the record itself reports (read() is C01's subject)
+    ex, _, kw = PAIRS[desc["pair"]]
+    fn = getattr(inff, "extrap_" + ex)
+    numel = int(np.prod(shape)) if shape else 1
+    for rep in range(desc["reps"]):
+        rdesc = {**desc, "reps": rep + 1}
+        ks = g.integers(0, n, size=shape if desc["mode"] == "tensor" else ())
+        obs = (100.0 * (rep + 1) + np.arange(numel, dtype=np.float64)).reshape(shape)
+        ctx.case(f"nonfinite/{ex}/{desc['mode']}/{desc['fill']}/N{n}/{'ip' if desc['inplace'] else 'oop'}")
+        ctx.count("ongrid_inserts_over_nonfinite_slots")
+        try:
+            if desc["mode"] == "tensor":
+                rt.insert(torch.as_tensor(np.array(obs, dtype=np.float64)), torch.as_tensor(np.array(np.asarray(ks, dtype=np.float64) * dt)),
+                          fn, tolerance=1e-9, inplace=desc["inplace"], extrap_kwargs=kw)
+            else:
+                rt.insert(torch.as_tensor(np.array(obs, dtype=np.float64)), float(ks) * dt, fn, tolerance=1e-9, inplace=desc["inplace"],
+                          extrap_kwargs=kw)
+        except Exception as e:  # noqa: BLE001
+            return ctx.violation(ctx.exc_signature(e, f"nonfinite.insert.{desc['mode']}"), f"{type(e).__name__}: {str(e)[:160]}", rdesc)
+        hist = [h.copy() for h in hist]
+        if desc["mode"] == "tensor":
+            for e in (_elems(shape)):
+                hist[int(np.asarray(ks)[e])][e] = obs[e]
+        else:
+            hist[int(ks)] = obs.copy()
+        for k in range(n):
+            got = _np(rt.read(k))
+            if got.shape != hist[k].shape or not np.array_equal(got, hist[k], equal_nan=True):
+                slot = "target_slot" if (np.asarray(ks) == k).any() else "other_slot"
+                return ctx.violation(f"nonfinite.insert.{desc['mode']}.ongrid.{slot}",
+                                     f"{ex}: after an on-grid insert the slot {k} steps back holds {got.tolist()}, expected {hist[k].tolist()}", rdesc)
+
+
 def run_case(ctx, desc):
     if desc.get("part") == "intstore":
         return _intstore(ctx, desc)
+    if desc.get("part") == "nonfinite":
+        return _nonfinite(ctx, desc)
     owner, rt, model, dtp = _setup(desc)
     n, shape, dt = desc["N"], tuple(desc["shape"]), desc["dt"]
     tdt = torch.float64 if desc["timedtype"] == "float64" else torch.float32
